@@ -50,6 +50,7 @@ REPO = os.environ.get("VERIF_REPO", "/repo")
 REPO_SRC = os.path.join(REPO, "src")
 PY = sys.executable or "/venv/bin/python"
 TOOL_TIMEOUT = 60.0
+COMPILE_TIMEOUT = 45.0  # in-process compile() normally takes 0.1-0.5 s; a compiler that spins is inconclusive, not a violation
 OUT_EXT = {"py": ".py", "js": ".js", "m": ".m", "h": ".h", "yaml": "_combined.yaml", "txt": ".txt"}
 
 # the 26 native type names common to all back ends: name -> (kind, width).  Written from the
@@ -234,17 +235,30 @@ def compile_program(src, out_dir, name="defs", real_black=False, src_dir=None, o
     del S["made"][:]
     cwd = os.getcwd()
     sink = io.StringIO()
+    import signal
+    import threading
+
+    def _hang(signum, frame):
+        raise ToolTimeout("in-process compile() did not return")
+
+    armed = threading.current_thread() is threading.main_thread()
+    if armed:
+        old_handler = signal.signal(signal.SIGALRM, _hang)
+        signal.setitimer(signal.ITIMER_REAL, COMPILE_TIMEOUT)
     try:
         with contextlib.redirect_stdout(sink), contextlib.redirect_stderr(sink):
             S["pc"].compile(defs_files=[root], out_dir=out_dir, out_name=name, python="py" in outputs,
                             javascript="js" in outputs, matlab="m" in outputs, c_lang="h" in outputs,
                             info="txt" in outputs, combined="yaml" in outputs, **opts)
     except BaseException as e:  # noqa
-        if isinstance(e, (KeyboardInterrupt, SystemExit)):
+        if isinstance(e, (KeyboardInterrupt, SystemExit, ToolTimeout)):
             raise
         raise CompileError(e, "".join(traceback.format_exception(e)),
                            isinstance(e, (pp.ParserError, FileNotFoundError))) from None
     finally:
+        if armed:
+            signal.setitimer(signal.ITIMER_REAL, 0)
+            signal.signal(signal.SIGALRM, old_handler)
         S["stub"].enabled = False
         os.chdir(cwd)
         _drop_parser_loggers()
@@ -1734,6 +1748,7 @@ class Exam:
         self.c_standalone = None
         self.c_syntax = None  # (ok, text)
         self.cli = None  # (rc, output) of examine_cli
+        self.hung = False  # in-process compile() did not return within COMPILE_TIMEOUT
         self.timeouts = []
 
 
@@ -1814,6 +1829,10 @@ class Examiner:
                 ex.compiled = c = compile_program(src, w.sub("out"), "gdefs", real_black=real_black, src_dir=w.sub("src"), **opts)
             except CompileError as e:
                 ex.compile_error = e
+                return ex
+            except ToolTimeout as t:
+                ex.timeouts.append(str(t))
+                ex.hung = True
                 return ex
             core_on = opts.get("import_coredefs", True)
             ex.core = frozenset(core_names()) if core_on else frozenset()
